@@ -1,4 +1,5 @@
 import SageModel.Model.C09
+import SageModel.Generated.Columns
 import Mathlib.Algebra.Ring.Defs
 import Mathlib.Algebra.Order.Field.Rat
 import Mathlib.Tactic.Ring
@@ -566,5 +567,92 @@ example : buildFragments kZ [.b, .y] 1 [pZ, ⟨[71, 57], [0, 0], 0, 0, 146⟩] =
 example : buildFragments kZ [.b, .y] 0 [pZ, ⟨[71, 57], [0, 0], 0, 0, 146⟩] =
     [(0, 113), (0, 186), (0, 219), (0, 146), (1, 71), (1, 75)] := by decide
 example : specFragments kZ [.b, .y] 1 [pZ, ⟨[71, 57], [0, 0], 0, 0, 146⟩] = [(0, 186), (0, 219)] := by decide
+
+/-! ### the configured path: `Builder::make_parameters` defaults -/
+
+/-- **C09.builder_defaults_source** — the right-hand sides of `Builder::make_parameters`, regenerated from
+    `database.rs` on every run, are the plain defaults the model transcribes: `min_ion_index` is
+    `.unwrap_or(2)` and nothing else (no clamp, no `max`), `ion_kinds` is `.unwrap_or(vec![B, Y])`. A change of
+    either expression in the source breaks this theorem. -/
+theorem builder_defaults_source :
+    Sage.Gen.DATABASE_DEFAULTS.lookup "min_ion_index" = some ".unwrap_or(2)" ∧
+    Sage.Gen.DATABASE_DEFAULTS.lookup "ion_kinds" = some ".unwrap_or(vec![Kind::B,Kind::Y])" := by
+  decide
+
+/-- **C09.min_ion_index_rule** — `min_ion_index` absent ⇒ 2; present ⇒ exactly the configured value. -/
+theorem min_ion_index_rule (b : Builder) :
+    b.makeParameters.minIonIndex = (match b.minIonIndex with | none => 2 | some m => m) := by
+  cases h : b.minIonIndex <;> simp [Builder.makeParameters, h]
+
+/-- **C09.min_ion_index_zero_kept** — in particular the legal setting 0 stays 0 (b1 / y1 are kept). -/
+theorem min_ion_index_zero_kept (b : Builder) (h : b.minIonIndex = some 0) : b.makeParameters.minIonIndex = 0 := by
+  simp [Builder.makeParameters, h]
+
+/-- **C09.ion_kinds_rule** — `ion_kinds` absent ⇒ b and y; present ⇒ exactly the configured list. -/
+theorem ion_kinds_rule (b : Builder) :
+    b.makeParameters.ionKinds = (match b.ionKinds with | none => [.b, .y] | some ks => ks) := by
+  cases h : b.ionKinds <;> simp [Builder.makeParameters, h]
+
+example : (Builder.makeParameters ⟨none, none, none⟩) = ⟨2, [.b, .y], 8192⟩ := by decide
+example : (Builder.makeParameters ⟨some 0, some [.c, .z], some 10000⟩) = ⟨0, [.c, .z], 16384⟩ := by decide
+example : nextPow2 0 = 1 ∧ nextPow2 1 = 1 ∧ nextPow2 3 = 4 ∧ nextPow2 5 = 8 := by decide
+
+/-- **C09.builder_index_content** — through the configuration path: if no peptide makes `IonSeries` panic,
+    the generated fragment list is the by-ordinal selection with `min_ion_index` = the configured value
+    (2 when absent) and the configured kinds (b, y when absent). -/
+theorem builder_index_content (k : Consts α) (b : Builder) (peps : List (Pep α))
+    (hp : ∀ p ∈ peps, panics p = false) :
+    buildFromBuilder? k b peps =
+      some (specFragments k (match b.ionKinds with | none => [.b, .y] | some ks => ks)
+        (match b.minIonIndex with | none => 2 | some m => m) peps) := by
+  have hany : peps.any panics = false := by
+    rw [List.any_eq_false]; intro p hpm; simp [hp p hpm]
+  rw [buildFromBuilder?, buildFragments?, hany, Bool.and_false, min_ion_index_rule, ion_kinds_rule]
+  simp only [Bool.false_eq_true, ↓reduceIte]
+  rw [index_content k _ _ peps hp]
+
+theorem mem_iff_ordinal {β : Type} (L : List β) (kind : Kind) (n : Nat) (hL : L.length = n - 1) (m : β) :
+    m ∈ L ↔ ∃ o, 0 < o ∧ o < n ∧ L[posOf kind n o]? = some m := by
+  constructor
+  · intro h
+    obtain ⟨j, hj⟩ := List.mem_iff_getElem?.mp h
+    have hjl : j < L.length := by
+      by_contra hc
+      rw [List.getElem?_eq_none (by omega)] at hj
+      exact absurd hj (by simp)
+    cases hk : kind.isN
+    · refine ⟨n - 1 - j, by omega, by omega, ?_⟩
+      have : posOf kind n (n - 1 - j) = j := by simp [posOf, hk]; omega
+      rw [this]; exact hj
+    · refine ⟨j + 1, by omega, by omega, ?_⟩
+      have : posOf kind n (j + 1) = j := by simp [posOf, hk]
+      rw [this]; exact hj
+  · rintro ⟨o, _, _, h⟩
+    exact List.mem_of_getElem? h
+
+/-- **C09.builder_zero_keeps_all** — with `min_ion_index: 0` in the configuration every ion of every
+    configured series of every peptide is stored under that peptide's index, b1 / y1 included, and
+    nothing else is. -/
+theorem builder_zero_keeps_all (k : Consts α) (b : Builder) (peps : List (Pep α)) (h0 : b.minIonIndex = some 0)
+    (hp : ∀ p ∈ peps, panics p = false) (i : Nat) (m : α) :
+    (∃ fr, buildFromBuilder? k b peps = some fr ∧ ((i, m) ∈ fr ↔
+      ∃ p kind, peps[i]? = some p ∧ kind ∈ b.makeParameters.ionKinds ∧ m ∈ ions k kind p)) := by
+  have hany : peps.any panics = false := by
+    rw [List.any_eq_false]; intro p hpm; simp [hp p hpm]
+  refine ⟨buildFragments k b.makeParameters.ionKinds 0 peps, ?_, ?_⟩
+  · simp [buildFromBuilder?, buildFragments?, hany, min_ion_index_zero_kept b h0]
+  · rw [index_membership k _ 0 peps hp]
+    constructor
+    · rintro ⟨p, kind, o, hpi, hk, h1, h2, hm⟩
+      exact ⟨p, kind, hpi, hk, List.mem_of_getElem? hm⟩
+    · rintro ⟨p, kind, hpi, hk, hm⟩
+      have hpm : p ∈ peps := List.mem_of_getElem? hpi
+      obtain ⟨o, h1, h2, ho⟩ :=
+        (mem_iff_ordinal _ kind p.residues.length (series_length_model k kind p (hp p hpm)) m).mp hm
+      exact ⟨p, kind, o, hpi, hk, h1, h2, ho⟩
+
+example : buildFromBuilder? kZ ⟨some 0, none, none⟩ [pZ] = some [(0, 113), (0, 186), (0, 219), (0, 146)] := by decide
+example : buildFromBuilder? kZ ⟨none, none, none⟩ [pZ] = some [] := by decide
+example : buildFromBuilder? kZ ⟨some 1, some [.b], none⟩ [pZ] = some [(0, 186)] := by decide
 
 end Sage.C09
